@@ -188,7 +188,8 @@ CHECKS = {
             "(get_pack_indexes / get_result_values_list vs brute force), every runner is simulated twice (no carry-over), and "
             "single-variation mode is checked against its partial-results file.  Half of the runners are then RECONFIGURED by the user "
             "(new rep_max, stop rule, skip pattern, new values of the unpacked parameters) and simulated again, in all-variation and "
-            "in single-index mode.",
+            "in single-index mode.  In situ: the repository's own AWGN simulator (apps/awgn_modulators) runs unmodified; only its two "
+            "extension points are wrapped to record events, and an offline checker requires the documented loop and exact stored sums.",
             "Serial simulate() only (ipyparallel is not installed); values are dyadic so merged sums compare with ==.",
             "instrumented subclass trace + executable reference model, exactly-once ids",
             "DESIGN.md §5 C05"),
